@@ -415,7 +415,10 @@ def confirm_and_minimise(prop, mod, v):
         return vj is not None and (vj['property'], vj['oracle'], vj['op']) == target
 
     def test(ops):
-        _, vj = pristine_execute(prop, ops, target)
+        try:
+            _, vj = pristine_execute(prop, ops, target)
+        except core.HarnessError:
+            return False        # a candidate the harness cannot execute is simply not a reduction
         return same(vj)
 
     note = 'single run'
